@@ -63,6 +63,9 @@ def scenario(tier):
             b.mkfile("R/f2.txt", 2)
         b.mkfile("R/d/f3.txt", 3)
         b.mkfile("R/d/f4.txt", sym.choose("cid_f4", [3, 4]))  # may equal f3's content
+        if sym.flag("has_nfd_names"):
+            b.mkfile("R/d/Cafe\u0301.mov", 6)  # decomposed spelling (as macOS file systems produce it)
+            b.mkfile("R/Re\u0301el/r1.txt", 7)
         if sym.flag("has_z"):
             b.mkdir("R/z")
         tmp = sym.flag("has_ignored")
